@@ -661,7 +661,11 @@ pub fn export_forest(b: &[u8], page_size: usize) -> R<String> {
         ).unwrap();
     }
     let mut seen: Vec<Pn> = vec![];
-    for p in d0.pages.iter().chain(d1.pages.iter()).filter(|p| !p.savepoint_only) {
+    // A pointer's covered prefix depends on the context it is reached in; where the two walks disagree
+    // (only possible in a damaged file) the view of the slot that recovery selects first wins.
+    let first_is_1 = select_slot(d0.god, &d0.slots) == Some(1);
+    let (da, db) = if first_is_1 { (&d1, &d0) } else { (&d0, &d1) };
+    for p in da.pages.iter().chain(db.pages.iter()).filter(|p| !p.savepoint_only) {
         if seen.contains(&p.pn) {
             continue;
         }
